@@ -601,3 +601,9 @@ _more("C06", "The table index may be computed by a helper function: it is then e
 _more("C29", "Added (C29-decode-eval): evhttp_decode_uri_internal evaluated on 1294 inputs in byte memory (every string over {a % 4 z + ?} up to length 3, longer escape forms, every pair of "
              "hexadecimal digits) x the three plus-modes: documented decoding, terminator, returned length, no write outside the output block, no read behind the input.")
 _more("C32", "Added (C32-frame-eval): make_ws_frame evaluated for 5 opcodes x 13 payload lengths around every length-form boundary appends exactly the RFC 6455 header and then the payload, by copy.")
+_more("C02", "Added (C02-ncalls): event_active_nolock_ over queue flags x event kind x count: an already-active event keeps its pending call count, a newly activated signal event gets the given "
+             "count, queued once. Added (C02-io-timeout): event_add_nolock_(ev, NULL) on a persistent event in no queue clears the re-arm interval of an earlier add, a pending event keeps "
+             "its timeout (a genuine defect fixed in /repo).")
+_more("C03", "Added (C03-internal-prio): every event marked EVLIST_INTERNAL is given priority 0 where it is set up (the priority scan goes on below a queue that held only internal callbacks).")
+_more("C05", "Added (C05-epoll-use): C06's rule on how epoll_apply_one_change uses the operation table, in particular EPOLLET exactly when a change byte carries the ET bit.")
+_more("C07", "Added to C07-target: file-scope state the signal handler itself writes is reset in evsig_init_ or in every function that closes the signalling socket.")
